@@ -21,6 +21,19 @@ Every run:
      other parametrisations of a @parametric kind (`Product[Dense, Diagonal]`) are identified with
      the kind's representative after checking that they have the same superclasses among all
      classes that can be hints.  Exceptions of rule bodies are counted, not judged;
+ (a') round 5: the regression tables of Properties/C04/PartH.lean / PartI.lean (`PartHTables.lean`) are regenerated from
+     /repo's git HISTORY: for each of the three repaired commits C the trees `git archive C^ cola` and `git archive C cola`
+     are extracted, plum registers the rules of that tree in a fresh interpreter (`dump_rules.py --history-dump`), and
+     plum's real resolver is run there on instances of the reduced class universe; PartI proves that the Lean model
+     answers like the historical plum (incl. `.ambiguous` before each repair).  The `_post` tables are compared with
+     today's table (the data Gen/RuleTable.lean is emitted from) up to class ids: evidence `regression_tables`;
+ (c'') round 5, cached resolutions: the same calls with plum's method cache ON and never cleared, twice (second pass with
+     OTHER instances of the same classes): the rule a cache hit returns must be the model's answer for the tuple, and a
+     function with a conditional rule must never be cached;
+ (iii) round 5: every body exception of (c') is classified by (function, kinds, exception class, raising site) and judged
+     (refused by an explicit assert/raise of cola | stub artefact | raised below the body); a call refused for a missing
+     PSD / SelfAdjoint declaration is re-run with the declaration; evidence `nested_resolutions.body_exceptions_judged`
+     (`unobserved_share`);
  (d) every tuple on which the REAL resolver fails is replayed as a plain public call; a call that
      raises AmbiguousLookupError / NotFoundLookupError is a VIOLATION (or KNOWN-FINDING when
      known_findings.json lists its clause); a broken gate / correspondence without such a call is
@@ -39,10 +52,40 @@ from typing import Any as typing_Any
 import common
 
 MODULE = "ColaVerif.Properties.C04"
-PARTS = [f"ColaVerif.Properties.C04.Part{p}" for p in "ABCDEFGH"]
+PARTS = [f"ColaVerif.Properties.C04.Part{p}" for p in "ABCDEFGHI"] + ["ColaVerif.Properties.C04.PartHTables"]
+# round 5: audited sub-modules gated in addition to MODULE (own `#print axioms` lists)
+SUBMODULES = ["ColaVerif.Properties.C04.PartI"]
+GENERATED = ["lean/ColaVerif/Gen/RuleTable.lean", "lean/ColaVerif/Properties/C04/PartHTables.lean"]
+# Suspected defects awaiting a decision (BUILDER_NOTES "Genuine defects"): clause name -> what fails.  None.
+PROVISIONAL_KNOWN = {}
 TRANSLATOR = os.path.join(common.ROOT, "harness", "translators", "dump_rules.py")
 LATTICE_JSON = os.path.join(common.WORK, "c04", "lattice.json")
 ANNOTATIONS = ["SelfAdjoint", "PSD", "Stiefel", "Unitary"]
+
+
+def limit_blas_threads():
+    """One OpenBLAS thread in THIS process (and, through the environment, in the interpreters started from it).  The rule
+    bodies of streams (c') work on 3x3 operators; with the default (one thread per core) sixteen forked workers on a machine
+    that is busy anyway spend their time in OpenBLAS' spin-waits (measured: 223 calls 0.7 s with one thread, 158 s without).
+    Affects speed only.  No `threadpoolctl` on this image: the libraries' own setters are called through ctypes."""
+    import ctypes
+    import re
+    os.environ["OPENBLAS_NUM_THREADS"] = "1"
+    os.environ["OMP_NUM_THREADS"] = "1"
+    done = []
+    try:
+        libs = {mm.group(1) for line in open("/proc/self/maps") for mm in [re.search(r"(/\S*openblas\S*\.so\S*)", line)] if mm}
+        for lib in sorted(libs):
+            h = ctypes.CDLL(lib)
+            for sym in ("scipy_openblas_set_num_threads64_", "scipy_openblas_set_num_threads", "openblas_set_num_threads64_",
+                        "openblas_set_num_threads"):
+                if hasattr(h, sym):
+                    getattr(h, sym)(1)
+                    done.append(f"{os.path.basename(lib)}:{sym}")
+                    break
+    except Exception:  # noqa: BLE001  (speed only)
+        pass
+    return done
 
 
 class _Stop(BaseException):
@@ -423,22 +466,75 @@ def cheap(a):
 _NS = {}
 
 
+class _AbsentFinder:
+    """answers `import jax` / `import torch` (not installed) at once"""
+
+    def __init__(self, names):
+        self.names = names
+
+    def find_spec(self, name, path=None, target=None):
+        if name.split(".")[0] in self.names:
+            raise ModuleNotFoundError(f"No module named '{name}'", name=name)
+        return None
+
+
+ALG_DOMS = ("INV", "PINV", "LOG", "TRACE", "UNARY", "EIG", "SVD")
+
+
+def exc_site(err):
+    """where a body exception was raised: `file:line function` of the innermost frame that lies in cola (or, when no
+    frame does, of the innermost frame at all), path shortened"""
+    tb, frames = err.__traceback__, []
+    while tb is not None:
+        c = tb.tb_frame.f_code
+        frames.append((c.co_filename, tb.tb_lineno, c.co_name))
+        tb = tb.tb_next
+    incola = [f for f in frames if os.sep + "cola" + os.sep in f[0] and "site-packages" not in f[0]]
+    f = (incola or frames or [("?", 0, "?")])[-1]
+    fn = f[0].split(os.sep + "cola" + os.sep)[-1] if incola else os.path.basename(f[0])
+    how = "outside-cola"
+    if incola:
+        import linecache
+        line = linecache.getline(f[0], f[1]).strip()
+        innermost = frames[-1] == f
+        how = "assert" if innermost and line.startswith("assert") else "raise" if innermost and line.startswith("raise") else "call"
+    return f"{fn}:{f[1]} {f[2]}", how
+
+
+REFUSAL_RETRY = ("only valid for PSD", "only valid for SelfAdjoint")
+
+
+def annotated(a):
+    """the operator with PSD and SelfAdjoint declared (same class): used to RE-RUN a call whose selected rule refused the
+    as-built instance with `assert A.isa(PSD | SelfAdjoint)`, so that the body behind the assertion is observed too"""
+    import cola
+    from cola.ops import LinearOperator
+    if not isinstance(a, LinearOperator):
+        return a
+    o = copy.copy(a)
+    o.annotations = set(a.annotations) | {cola.PSD, cola.SelfAdjoint}
+    return o
+
+
 def _nested_worker(w):
     """calls number w, w+W, w+2W, ... of `call_sites`, each run to completion; -> aggregated observations"""
     import importlib.util
     import warnings
     warnings.simplefilter("ignore")
-    for lib in ("jax", "torch"):
-        # cola.backends.get_library_fns tries `import jax` / `import torch` on every operator construction; a
-        # failing import searches sys.path each time (a third of this stream's time).  Same ImportError, no search.
-        if lib not in sys.modules and importlib.util.find_spec(lib) is None:
-            sys.modules[lib] = None
+    # cola.backends.get_library_fns tries `import jax` / `import torch` on every operator construction; a failing
+    # import searches sys.path each time (a third of this stream's time).  Same ImportError, no search.  (Round 5: a
+    # finder, not `sys.modules[lib] = None` — scipy's array-API layer reads `sys.modules["jax"].Array` when the key exists,
+    # which made BlockDiag.to_dense fail inside this stream only.)
+    absent = tuple(lib for lib in ("jax", "torch") if lib not in sys.modules and importlib.util.find_spec(lib) is None)
+    if absent and not any(isinstance(f, _AbsentFinder) for f in sys.meta_path):
+        sys.meta_path.insert(0, _AbsentFinder(absent))
     D, m, W, only = _NS["D"], _NS["m"], _NS["W"], _NS.get("only")
+    limit_blas_threads()
     R = Real(D, m)
     other = R.all_functions()
     obs, unkeyed = {}, {}
-    outside, errs, err_samples = {}, {}, {}
-    calls = res = nested = 0
+    outside, errs, err_samples, err_detail, retry_err = {}, {}, {}, {}, {}
+    calls = res = nested = retries = 0
     t_start, c_start = time.time(), time.process_time()
     for idx, (fo, it, _need, args, tag, _forced) in enumerate(call_sites(D, m)):
         if idx % W != w or (only is not None and idx not in only):
@@ -448,14 +544,34 @@ def _nested_worker(w):
         calls += 1
         res += len(recs)
         outer = (idx, fo["name"], it["labels"], tag)
+        retry_recs = []
         if err is not None:
             en = type(err).__name__
             errs[en] = errs.get(en, 0) + 1
             err_samples.setdefault(en, f"{fo['name']} {it['labels']} {tag}: {str(err)[:160]}")
-        for i, r in enumerate(recs):
+            site, how = exc_site(err)
+            kl = tuple(lab for d, lab in zip(fo["doms"], it["labels"]) if d in ("K", "KARR", "SMUL", "NYS"))
+            al = tuple(lab for d, lab in zip(fo["doms"], it["labels"]) if d in ALG_DOMS)
+            e = err_detail.setdefault((fo["fn"], kl, al, en, site, how), {"n": 0, "msg": str(err)[:200], "call": f"{fo['name']} {it['labels']} {tag}"})
+            e["n"] += 1
+            if how == "assert" and any(t in str(err) for t in REFUSAL_RETRY):
+                # the rule refuses an operator that is not declared PSD / SelfAdjoint: once more with the declaration, so that
+                # the rest of the body (and its dispatch) is observed; judged like every other call of the stream
+                args2 = [annotated(a) for a in args]
+                recs2, err2 = R.record_all(lambda: fo["call"](*args2), other)
+                retries += 1
+                res += len(recs2)
+                retry_recs = [(r, (idx, fo["name"], it["labels"], (tag + " [re-run with annotations|={PSD,SelfAdjoint}]").strip())) for r in recs2]
+                if err2 is not None:
+                    site2, how2 = exc_site(err2)
+                    e2 = retry_err.setdefault((fo["fn"], kl, al, type(err2).__name__, site2, how2),
+                                              {"n": 0, "msg": str(err2)[:200], "call": f"{fo['name']} {it['labels']} {tag} [re-run]"})
+                    e2["n"] += 1
+        for i, (r, outer) in enumerate([(r, outer) for r in recs] + retry_recs):
             if "other" in r:
                 outside[r["other"]] = outside.get(r["other"], 0) + 1
                 continue
+            i = i if i < len(recs) else i - len(recs)
             nested += i > 0
             out = (r["out"][0], r["out"][1] if r["out"][0] == "U" else None) if "out" in r else ("?", None)
             if r["key"] is None:
@@ -474,7 +590,7 @@ def _nested_worker(w):
                or any(a is not b for a, b in zip(fn["function"]._resolver.signatures, fn["live"]))]
     canon = {f"{c.__module__}.{c.__qualname__}": (m.class_names[v[0]] if v[0] is not None else None) for c, v in R.canon.items()}
     return {"obs": obs, "unkeyed": unkeyed, "outside": outside, "errs": errs, "err_samples": err_samples,
-            "calls": calls, "res": res, "nested": nested, "registry_changed": changed, "canon": canon,
+            "err_detail": err_detail, "retry_err": retry_err, "retries": retries, "calls": calls, "res": res, "nested": nested, "registry_changed": changed, "canon": canon,
             "wall": round(time.time() - t_start, 1), "cpu": round(time.process_time() - c_start, 1)}
 
 
@@ -490,16 +606,20 @@ def nested_stream(D, m, only=None):
     else:
         with multiprocessing.get_context("fork").Pool(W) as pool:
             parts = pool.map(_nested_worker, range(W), chunksize=1)
-    tot = {"obs": {}, "unkeyed": {}, "outside": {}, "errs": {}, "err_samples": {}, "calls": 0, "res": 0, "nested": 0,
+    tot = {"obs": {}, "unkeyed": {}, "outside": {}, "errs": {}, "err_samples": {}, "err_detail": {}, "retry_err": {}, "retries": 0, "calls": 0, "res": 0, "nested": 0,
            "registry_changed": set(), "canon": {}, "workers": W}
     for p in parts:
-        for k in ("calls", "res", "nested"):
+        for k in ("calls", "res", "nested", "retries"):
             tot[k] += p[k]
         for k in ("outside", "errs"):
             for a, b in p[k].items():
                 tot[k][a] = tot[k].get(a, 0) + b
         for a, b in p["err_samples"].items():
             tot["err_samples"].setdefault(a, b)
+        for k in ("err_detail", "retry_err"):
+            for a, b in p[k].items():
+                t = tot[k].setdefault(a, dict(b, n=0))
+                t["n"] += b["n"]
         tot.setdefault("worker_wall_cpu", []).append((p["wall"], p["cpu"]))
         tot["registry_changed"].update(p["registry_changed"])
         tot["canon"].update(p["canon"])
@@ -519,6 +639,70 @@ def nested_stream(D, m, only=None):
                     if t.get("msg") is None:
                         t["msg"] = e.get("msg")
     return tot
+
+
+EXC_CATEGORIES = {
+    "refused": "refused by cola on purpose: an explicit `assert` / `raise` statement of the rule body (annotation or argument "
+               "precondition, unimplemented case) — the body ends there for this input in every run, nothing is left unobserved",
+    "stub": "harness artefact: a stub instance lacks an attribute the class's own methods need",
+    "below": "raised below the rule body (numpy / scipy / backend function called by cola) on the lattice's 3x3 instance: "
+             "numerical failure or an input the backend does not accept — the rest of that body's dispatch is unobserved",
+    "other": "raised inside cola by an expression (not an assert / raise statement) — the rest of that body's dispatch is unobserved",
+}
+
+
+def exc_category(en, site, how, msg, kinds, stubs):
+    if en == "AttributeError" and any(f"'{k}' object has no attribute" in msg for k in stubs) or \
+            ("Primary MatMul call failed" in msg and any(k in stubs for k in kinds)):
+        return "stub"
+    if how in ("assert", "raise"):
+        return "refused"
+    if how == "outside-cola" or site.startswith("backends" + os.sep):
+        return "below"
+    return "below" if en in ("LinAlgError", ) else "other"
+
+
+def judge_exceptions(m, tot):
+    """(iii) of the round-5 item: every body exception of stream (c') classified by (function, kinds, exception class, raising
+    site) and judged: on purpose / harness artefact / unobserved remainder."""
+    stubs = [k["name"] for k in m.kinds if k["stub"]]
+    out = {}
+    for which in ("err_detail", "retry_err"):
+        agg = {}
+        for (fn, kl, al, en, site, how), e in tot[which].items():
+            cat = exc_category(en, site, how, e["msg"], kl, stubs)
+            a = agg.setdefault((cat, en, site), {"n": 0, "functions": set(), "kinds": set(), "algorithms": set(), "message": e["msg"][:140],
+                                                 "sample_call": e["call"][:140], "raised_by": how})
+            a["n"] += e["n"]
+            a["functions"].add(fn)
+            a["kinds"].update(kl)
+            a["algorithms"].update(al)
+        rows = [{"category": k[0], "exception": k[1], "site": k[2], "calls": a["n"], "raised_by": a["raised_by"],
+                 "functions": sorted(a["functions"]), "kinds": sorted(a["kinds"]) if len(a["kinds"]) <= 8 else f"{len(a['kinds'])} kinds",
+                 "algorithms": sorted(a["algorithms"]), "message": a["message"], "sample_call": a["sample_call"]}
+                for k, a in sorted(agg.items(), key=lambda kv: (-kv[1]["n"], kv[0]))]
+        by_cat = {}
+        for r in rows:
+            by_cat[r["category"]] = by_cat.get(r["category"], 0) + r["calls"]
+        out[which] = (rows, by_cat)
+    rows, by_cat = out["err_detail"]
+    rrows, rby = out["retry_err"]
+    total = sum(by_cat.values())
+    refused = by_cat.get("refused", 0)
+    # a refused call that was re-run with the declaration and then ran to completion (or was refused again) leaves nothing unobserved
+    unobserved = total - refused + sum(v for k, v in rby.items() if k != "refused")
+    return {
+        "calls_ending_in_body_exception": total,
+        "share_of_calls": round(total / max(tot["calls"], 1), 4),
+        "by_category": by_cat,
+        "categories": EXC_CATEGORIES,
+        "refused_calls_re_run_with_PSD_SelfAdjoint_declared": tot["retries"],
+        "re_runs_ending_in_exception_by_category": rby,
+        "calls_with_unobserved_remainder": unobserved,
+        "unobserved_share": round(unobserved / max(tot["calls"], 1), 4),
+        "classes": rows[:60],
+        "re_run_classes": rrows[:20],
+    }
 
 
 def _short(c):
@@ -573,6 +757,9 @@ def judge_nested(m, lean, tot):
         "other_parametrisations_sample": dict(sorted((k, v) for k, v in tot["canon"].items() if v)[:8]),
         "body_exceptions": dict(sorted(tot["errs"].items(), key=lambda kv: -kv[1])),
         "body_exception_samples": tot["err_samples"],
+        "body_exceptions_judged": (je := judge_exceptions(m, tot)),
+        "calls_ending_in_body_exception": je["calls_ending_in_body_exception"],
+        "unobserved_share": je["unobserved_share"],
         "workers": tot["workers"],
     }
     return findings, summary
@@ -583,6 +770,168 @@ def report_nested(ctx, findings, cap=6):
     for f in findings[:cap]:
         common.violation(ctx, dict(f, findings_of_this_kind=len(findings)))
     return min(len(findings), cap)
+
+
+# ------------------------------------------------------------------------------------------
+# (c'') cached resolutions: plum's method cache ON and never cleared between the calls
+# ------------------------------------------------------------------------------------------
+def _fresh(a):
+    """a DIFFERENT instance of the same class (same annotations / fields): the second pass of the cached stream calls
+    with these, so a cache hit is a resolution for another object than the one that filled the cache"""
+    try:
+        b = copy.copy(a)
+    except Exception:  # noqa: BLE001
+        return a
+    return b if type(b) is type(a) else a
+
+
+def _cached_worker(w):
+    """All call sites of the functions number w, w+W, ... (sorted names), in the order of `call_sites`, twice (pass 1:
+    the instances of the lattice; pass 2: fresh copies), with `Function._resolve_method_with_cache` — the entry of every
+    dispatched call — wrapped: the OUTER call's selected signature is recorded (from the cache entry on a hit, from
+    `Resolver.resolve` on a miss; plum's own code does the caching) and the call is aborted before the rule runs.  The
+    caches of this process are cleared ONCE, before the first call."""
+    import warnings
+    warnings.simplefilter("ignore")
+    D, m, W, lean = _NS["D"], _NS["m"], _NS["W"], _NS["lean"]
+    R = Real(D, m)
+    plum = R.plum
+    Function, Resolver = plum.Function, R.Resolver
+    mine = {n for i, n in enumerate(sorted(m.functions)) if i % W == w}
+    by_function = {id(fn["function"]): n for n, fn in m.functions.items()}
+    orig_rm, orig_res = Function._resolve_method_with_cache, Resolver.resolve
+    R.clear_caches()
+    st = {"calls": [0, 0], "hits": [0, 0], "stored": [0, 0], "hits_by_fn": {}, "entries": {}, "cached_with_condition": [],
+          "second_differs_from_first": 0, "errors": []}
+    findings, first = [], {}
+    for pno in (0, 1):
+        for idx, (fo, it, _need, args, tag, forced) in enumerate(call_sites(D, m)):
+            if fo["fn"] not in mine:
+                continue
+            if pno == 1:
+                args = [_fresh(a) for a in args]
+            rec = {}
+
+            def res_patched(rs, target):
+                sg = orig_res(rs, target)
+                if "sig" not in rec and rec.get("resolver") is rs:
+                    rec["sig"] = sg
+                return sg
+
+            def rm_patched(fself, args=None, types=None):
+                if rec:
+                    return orig_rm(fself, args=args, types=types)
+                rec["fn"] = by_function.get(id(fself), "?")
+                rec["args"], rec["resolver"] = args, fself._resolver
+                if args is None:
+                    rec["error"] = "entered with types, not arguments"
+                    raise _Stop()
+                if fself._pending:
+                    fself._resolve_pending_registrations()
+                ty = tuple(map(type, args))
+                rec["hit"], rec["stored"] = ty in fself._cache, False
+                try:
+                    method = orig_rm(fself, args=args)[0]     # plum's own lookup + caching
+                    if rec["hit"]:
+                        ent = fself._cache[ty]
+                        rec["sig"] = ent[2]
+                        if ent[0] is not method:
+                            rec["error"] = "the cache entry is not what the cached lookup returned"
+                    rec["stored"] = (not rec["hit"]) and ty in fself._cache
+                    sg = rec.get("sig")
+                    rec["out"] = ("U", next((i for i, s in enumerate(fself._resolver.signatures) if s is sg), None))
+                    if sg is not None and sg.implementation is not method:
+                        rec["error"] = "selected signature and returned method differ"
+                except plum.AmbiguousLookupError as ex:
+                    rec["out"] = ("A", str(ex)[:300])
+                except plum.NotFoundLookupError as ex:
+                    rec["out"] = ("N", str(ex)[:300])
+                raise _Stop()
+
+            Function._resolve_method_with_cache, Resolver.resolve = rm_patched, res_patched
+            try:
+                fo["call"](*args)
+            except _Stop:
+                pass
+            except Exception as ex:  # noqa: BLE001  (raised before any dispatch)
+                rec.setdefault("error", f"{type(ex).__name__}: {str(ex)[:160]}")
+            finally:
+                Function._resolve_method_with_cache, Resolver.resolve = orig_rm, orig_res
+            st["calls"][pno] += 1
+            where = {"form": fo["name"], "labels": it["labels"], "variant": tag, "pass": pno + 1, "call_index": idx}
+            if "out" not in rec or rec.get("fn") != fo["fn"] or "error" in rec:
+                st["errors"].append(dict(where, error=rec.get("error") or f"first dispatched function was {rec.get('fn')}"))
+                continue
+            st["hits"][pno] += rec["hit"]
+            st["stored"][pno] += rec["stored"]
+            if rec["hit"]:
+                st["hits_by_fn"][fo["fn"]] = st["hits_by_fn"].get(fo["fn"], 0) + 1
+            key, err = R.key_of(rec)
+            if err:
+                st["errors"].append(dict(where, error=err))
+                continue
+            lo = lean[fo["fn"]].get(key)
+            real = (rec["out"][0], rec["out"][1] if rec["out"][0] == "U" else None)
+            if pno == 0:
+                first[idx] = real
+            elif first.get(idx) != real:
+                st["second_differs_from_first"] += 1
+            if lo is None or real != lo[0]:
+                findings.append(dict(where, kind="cached-vs-model", cached=True, cache_hit=rec["hit"], forced=forced,
+                                     function=fo["fn"], tuple=[list(key[0]), key[1]],
+                                     classes=describe(m, m.functions[fo["fn"]], key[0]),
+                                     real=f"{real[0]} {real[1]}", first_pass=str(first.get(idx)),
+                                     model=None if lo is None else f"{lo[0][0]} {lo[0][1]}",
+                                     what=(f"with plum's method cache left on (not cleared since the start of the stream), `{fo['name']}` on "
+                                           f"{it['labels']} {tag} selects {real} ({'cache hit' if rec['hit'] else 'cache miss'}); the model "
+                                           f"resolver, which the C04 theorems are about, answers {None if lo is None else lo[0]} on this tuple")))
+    for n in mine:
+        f = m.functions[n]["function"]
+        st["entries"][n] = len(f._cache)
+        if f._cache and any(s.condition is not None for s in f._resolver.signatures):
+            st["cached_with_condition"].append(n)
+    R.clear_caches()
+    return st, findings
+
+
+def cached_stream(D, m, lean):
+    """(c''): -> (findings, summary).  Workers are split BY FUNCTION (a function's cache only sees that function's calls,
+    so every function sees exactly the sequence of calls it would see in one process)."""
+    import multiprocessing
+    W = max(1, min(16, os.cpu_count() or 1, len(m.functions)))
+    _NS.update(D=D, m=m, W=W, lean=lean)
+    if W == 1:
+        parts = [_cached_worker(0)]
+    else:
+        with multiprocessing.get_context("fork").Pool(W) as pool:
+            parts = pool.map(_cached_worker, range(W), chunksize=1)
+    findings = sorted((f for _, fs in parts for f in fs), key=lambda f: (f["pass"], f["call_index"]))
+    tot = {"calls": [0, 0], "hits": [0, 0], "stored": [0, 0]}
+    entries, hits_by_fn, cwc, errors, differs = {}, {}, [], [], 0
+    for st, _ in parts:
+        for k in tot:
+            tot[k] = [a + b for a, b in zip(tot[k], st[k])]
+        entries.update(st["entries"])
+        hits_by_fn.update(st["hits_by_fn"])
+        cwc += st["cached_with_condition"]
+        errors += st["errors"]
+        differs += st["second_differs_from_first"]
+    conditional = sorted(n for n, fn in m.functions.items() if fn["conds"])
+    unfaithful = sorted(n for n, fn in m.functions.items() if not fn["function"]._resolver.is_faithful)
+    summary = {
+        "calls_first_pass": tot["calls"][0], "calls_second_pass_fresh_instances": tot["calls"][1],
+        "cache_hits_first_pass": tot["hits"][0], "cache_hits_second_pass": tot["hits"][1],
+        "entries_stored_first_pass": tot["stored"][0], "entries_stored_second_pass": tot["stored"][1],
+        "cache_entries_at_end": dict(sorted((k, v) for k, v in entries.items() if v)),
+        "functions_with_a_conditional_rule": conditional,
+        "functions_plum_never_caches (resolver not faithful)": unfaithful,
+        "conditional_function_with_cache_entries": sorted(cwc),
+        "second_pass_selects_another_rule_than_first": differs,
+        "cached_vs_model_mismatches": len(findings),
+        "calls_not_judged": len(errors), "calls_not_judged_first": errors[:5],
+        "workers": W,
+    }
+    return findings, summary, errors
 
 
 def real_call(D, m, form_name, labels, variant):
@@ -624,20 +973,21 @@ def restore_committed_table():
     fail (a defective or mutated tree) would break `lake build ColaVerif` and with it the Lean gate
     of every other property.  After such a run put the committed copy back (it is regenerated by
     the next run of this check anyway); the failure itself has been reported above."""
-    rel = "lean/ColaVerif/Gen/RuleTable.lean"
-    rc, so, _ = common.sh(["git", "show", "HEAD:" + rel], cwd=common.ROOT)
-    path = os.path.join(common.ROOT, rel)
-    if rc == 0 and so and so != open(path).read():
-        with open(path, "w") as f:
-            f.write(so)
-        print("note: C04 theorems fail on the regenerated rule table; restored the committed Gen/RuleTable.lean "
-              "so that the rest of the library keeps building", flush=True)
+    for rel in GENERATED:
+        rc, so, _ = common.sh(["git", "show", "HEAD:" + rel], cwd=common.ROOT)
+        path = os.path.join(common.ROOT, rel)
+        if rc == 0 and so and so != open(path).read():
+            with open(path, "w") as f:
+                f.write(so)
+            print(f"note: C04 theorems fail on the regenerated tables; restored the committed {rel} "
+                  "so that the rest of the library keeps building", flush=True)
 
 
 # ------------------------------------------------------------------------------------------
 def run(ctx):
     t0 = time.time()
     broken = []
+    limit_blas_threads()
     # (a) translator on the current working tree of /repo, in a fresh interpreter
     rc, so, se = common.sh(["/venv/bin/python", TRANSLATOR, "--quiet"], cwd=common.ROOT, timeout=900)
     if rc != 0:
@@ -648,10 +998,38 @@ def run(ctx):
         return
     tsum = json.loads(so.strip().split("\n")[-1])
     t_translate = time.time() - t0
+    # (a') the regression tables of PartH / PartI, regenerated from /repo's git HISTORY (pre- and post-fix trees extracted
+    #      with `git archive`, plum's registration and plum's resolver run on them in fresh interpreters)
+    D = load_translator()
+    reg = {"available": False}
+    try:
+        H = D.regression_history()
+        reg = {"available": H["available"], "why": H.get("why")}
+        if H["available"]:
+            reg.update(repository=H["repository"], regenerated_file_changed=D.emit_regression_lean(H), tables={
+                fn: {"commit": e["commit"], "file": e["file"], "pre_tree": e["pre"]["sha"][:12], "post_tree": e["post"]["sha"][:12],
+                     "rules_pre": len(e["pre"]["sigs"]), "rules_post": len(e["post"]["sigs"]),
+                     "real_calls_on_each_tree": e["pre"]["calls"], "distinct_tuples_observed": len(e["pre"]["observed"]),
+                     "real_resolver_failures_pre": sum(1 for o in e["pre"]["observed"] if o["out"][0] != "U"),
+                     "real_resolver_failures_post": sum(1 for o in e["post"]["observed"] if o["out"][0] != "U")}
+                for fn, e in H["tables"].items()})
+        else:
+            print(f"note: regression tables not regenerated ({H['why']}); the committed PartHTables.lean is used", flush=True)
+    except Exception as ex:  # noqa: BLE001  (extraction / historical interpreter failed: machinery, the committed file stays)
+        H = {"available": False}
+        reg = {"available": False, "why": f"{type(ex).__name__}: {str(ex)[:1500]}"}
+        broken.append({"stage": "regression tables: regeneration from /repo's history failed", "detail": reg["why"]})
+    t_regr = time.time() - t0 - t_translate
     # (b) Lean gate
     gate, gate_err = None, None
     try:
         gate = common.lean_gate(ctx, MODULE)
+        for sub in SUBMODULES:
+            g = common.lean_gate(ctx, sub)
+            gate["obligations"] += g["obligations"]
+            gate["discharged"] += g["discharged"]
+            gate["theorems"] = sorted(set(gate["theorems"]) | set(g["theorems"]))
+            gate["checker_cmd"] += " && " + g["checker_cmd"]
         if ctx.thorough:
             rc, so, se = common.sh(["lake", "env", "leanchecker"] + PARTS, cwd=common.LEAN_DIR, timeout=3000)
             gate["checker_cmd"] += " && lake env leanchecker " + " ".join(PARTS)
@@ -661,19 +1039,24 @@ def run(ctx):
         gate_err = str(ex)
         # lean_gate builds the whole library; other modules are edited concurrently.  Only a failure
         # of the C04 modules themselves says something about C04.
-        rc, out = common.lake_build([MODULE])
+        rc, out = common.lake_build([MODULE] + SUBMODULES)
         if rc == 0 and "forbidden tokens" not in gate_err and "leanchecker" not in gate_err:
             raise RuntimeError("the Lean library does not build outside the C04 modules (machinery failure, not a C04 result):\n" + gate_err[-2000:])
         broken.append({"stage": "lean gate", "detail": gate_err[-3000:]})
-    t_gate = time.time() - t0 - t_translate
+    t_gate = time.time() - t0 - t_translate - t_regr
     # the model's answer for every tuple (needs only the table and the model, not the theorems)
     rc, out = common.lake_build(["ColaVerif.Gen.RuleTable"])
     if rc != 0:
         raise RuntimeError("generated RuleTable.lean does not compile:\n" + out[-3000:])
     lean, _order = run_lean_driver()
     # (c) correspondence on real instances
-    D = load_translator()
     m = D.load()
+    if H["available"]:
+        reg["post_equals_today"] = D.post_equals_today(H, m)
+        drift = {k: v for k, v in reg["post_equals_today"].items() if v is not True}
+        if drift:
+            # not a C04 failure: the `_fixed` theorems stay true of the repaired commits; they just no longer describe today's rows
+            print("note: PartH `_post` tables (the repaired commits) are not today's tables any more: " + json.dumps(drift), flush=True)
     js = json.load(open(LATTICE_JSON))
     active = {n: [c["name"] for c in fn["clauses"]] for n, fn in m.functions.items() if fn["clauses"]}
     if gate_err is not None and active:
@@ -690,7 +1073,14 @@ def run(ctx):
             raise RuntimeError(f"lattice of {name}: translator run, in-process model and Lean driver differ")
     if ctx.replay:
         rp = json.load(open(ctx.replay))
-        if "nested" in rp and "form" in rp:
+        if rp.get("cached"):
+            cf, _cs, _ce = cached_stream(D, m, lean)
+            same = [f for f in cf if (f["form"], f["labels"], f["variant"], f["pass"]) == (rp["form"], rp["labels"], rp.get("variant", ""), rp["pass"])]
+            print(json.dumps({"replayed": "the whole cached stream (the finding depends on the calls before it)", "cached_findings_now": len(cf),
+                              "the_recorded_one_again": bool(same)}))
+            for f in same[:1]:
+                common.violation(ctx, dict(f, replay_of=ctx.replay))
+        elif "nested" in rp and "form" in rp:
             # the outer call once more, run to completion with every resolution recorded
             only = {i for i, (fo, it, _n, _a, tag, _f) in enumerate(call_sites(D, m))
                     if fo["name"] == rp["form"] and it["labels"] == rp["labels"] and tag == rp.get("variant", "")}
@@ -711,11 +1101,16 @@ def run(ctx):
         return
     stats = {"calls": 0, "evaluations": 0, "nontrivial": set(), "natural": set()}
     mismatches, failures, errors, uncovered, samples = correspondence(ctx, D, m, lean, stats)
-    t_corr = time.time() - t0 - t_translate - t_gate
+    t_corr = time.time() - t0 - t_translate - t_gate - t_regr
     # (c') the same calls run to completion: every nested resolution must be a lattice tuple, resolved as the model says
     tot = nested_stream(D, m)
     nfind, nsummary = judge_nested(m, lean, tot)
-    t_nested = time.time() - t0 - t_translate - t_gate - t_corr
+    t_nested = time.time() - t0 - t_translate - t_gate - t_corr - t_regr
+    # (c'') the same calls with plum's method cache ON and never cleared, twice (second pass: other instances of the same classes)
+    cfind, csummary, cerrors = cached_stream(D, m, lean)
+    t_cached = time.time() - t0 - t_translate - t_gate - t_corr - t_regr - t_nested
+    if cerrors:
+        broken.append({"stage": "cached stream: calls that could not be judged", "count": len(cerrors), "first": cerrors[:5]})
     if tot["calls"] != stats["calls"]:
         raise RuntimeError(f"nested stream ran {tot['calls']} calls, the correspondence {stats['calls']}")
     if tot["registry_changed"]:
@@ -760,6 +1155,9 @@ def run(ctx):
             common.violation(ctx, ent["payload"])
             reported += 1
     reported += report_nested(ctx, nfind)
+    for f in cfind[:4]:
+        common.violation(ctx, dict(f, findings_of_this_kind=len(cfind)))
+        reported += 1
     unconfirmed = [c for c, e in seen.items() if not e["confirmed"]]
     if unconfirmed:
         broken.append({"stage": "real resolver fails inside interception but the plain call does not raise a lookup error", "clauses": unconfirmed})
@@ -807,8 +1205,10 @@ def run(ctx):
         "samples": samples[:12],
         "never_selected_on_lattice": never,
         "nested_resolutions": nsummary,
-        "timing_s": {"translator": round(t_translate, 1), "lean_gate": round(t_gate, 1), "correspondence": round(t_corr, 1),
-                     "nested_stream": round(t_nested, 1)},
+        "cached_resolutions": csummary,
+        "regression_tables": reg,
+        "timing_s": {"translator": round(t_translate, 1), "regression_tables": round(t_regr, 1), "lean_gate": round(t_gate, 1),
+                     "correspondence": round(t_corr, 1), "nested_stream": round(t_nested, 1), "cached_stream": round(t_cached, 1)},
         "translator": tsum,
         "trusted_base_extra": [
             "harness/translators/dump_rules.py: reflection of plum's registry into RuleTable.lean, and the lattice tables FORMS / ALGS / DOMAINS (the statement of which calls the documentation admits)",
@@ -818,12 +1218,15 @@ def run(ctx):
     if broken:
         cov["broken"] = broken
     common.write_evidence(ctx, gate, cov, assumptions=[
-        "Operator kinds that cannot be constructed on the NumPy backend (Jacobian, Hessian, ConvolveND, Kernel, FFT, AdaNysPrecond) are represented by stub instances of the real class; rule selection only inspects the class, `annotations` and, for Product, the factor shapes",
+        "Operator kinds that cannot be constructed on the NumPy backend (Jacobian, Hessian, ConvolveND: they need jax's jvp / vjp / convolve) are represented by stub instances of the real class whose `_matmat` / `_rmatmat` are shadowed by a fixed 3x3 matrix, so that rule bodies run on them in stream (c'); rule selection only inspects the class, `annotations` and, for Product, the factor shapes (round 5: Kernel, FFT, AdaNysPrecond are real instances now)",
         "one representative parametrisation per @parametric kind (e.g. Product[Dense, Dense]): no registered hint is a parametrised class, so all parametrisations of a kind have the same superclasses among the hints",
         "registration order is the one produced by `import cola` followed by the remaining modules in sorted order (the candidate loop is order dependent)",
         "errors raised by the selected rule are outside C04: in stream (c) calls are aborted after rule selection; in stream (c') the bodies run and their exceptions are counted by class (`nested_resolutions.body_exceptions`), the resolutions recorded before the exception are still judged",
         "stream (c') observes the nested dispatch of the bodies AS EXECUTED on the 3x3 instances of the lattice with reduced iteration budgets (max_iters<=4, bs<=3) and plum's method cache switched off; branches of a body that these inputs do not take (size thresholds of Auto, convergence-dependent paths) are not observed",
         "a runtime class that is another parametrisation of a @parametric kind is identified with the representative of the class table only after checking equal superclasses among all non-parametrised classes of the table (no registered hint is a parametrised class: checked)",
+        "stream (c''), cached resolutions: plum's `_cache` is cleared once and then left alone while every call site is called twice (lattice instances, then shallow copies = other objects of the same classes), the call being aborted after `Function._resolve_method_with_cache` returned; what is observed is the OUTER resolution of each call under the cache history this ordering produces (per function: the order of `call_sites`), not every interleaving",
+        "a call of stream (c') that the selected rule refuses with `assert A.isa(PSD)` / `assert A.isa(SelfAdjoint)` is re-run with `annotations |= {PSD, SelfAdjoint}` forced on the operator arguments (true of the SPD lattice instances, forced on the others), so that the body behind the assertion is observed; `unobserved_share` counts the calls (and re-runs) that end in an exception NOT raised by an explicit assert / raise statement of cola",
+        "PartH / PartI regression tables: the reduced class universe (19 classes), the three commits and the index lists `structured` / `kinds` are hand-written (dump_rules.py REGRESSION_*, PartH.lean); rows, hierarchy and the real resolver's answers are regenerated from `git archive` trees of /repo's history on every run; that the `_post` tables are today's tables is checked by the harness (`regression_tables.post_equals_today`), a difference is printed and recorded, not a violation",
     ])
     if gate_err is not None:
         restore_committed_table()
@@ -831,7 +1234,11 @@ def run(ctx):
                       "calls": stats["calls"], "mismatches": len(mismatches), "real_failures": len(failures),
                       "uncovered": len(uncovered), "errors": len(errors),
                       "nested": {k: nsummary[k] for k in ("resolutions_observed", "nested_resolutions_observed", "distinct_nested_tuples",
-                                                           "distinct_nested_tuples_in_lattice", "real_vs_model_mismatches")} |
+                                                           "distinct_nested_tuples_in_lattice", "real_vs_model_mismatches",
+                                                           "calls_ending_in_body_exception", "unobserved_share")} |
                                 {"not_in_lattice": len([f for f in nfind if f["kind"] != "real-vs-model"])},
+                      "cached": {k: csummary[k] for k in ("calls_first_pass", "cache_hits_first_pass", "cache_hits_second_pass",
+                                                          "cached_vs_model_mismatches")},
+                      "regression_tables": {"available": reg["available"], "post_equals_today": reg.get("post_equals_today")},
                       "gate": (gate or {}).get("obligations"),
                       "gate_broken": gate_err is not None, "timing_s": cov["timing_s"]}))
